@@ -1,6 +1,6 @@
 (** Replay of implementation observations on the keystore write model (C08 fault scenarios,
     C17 schedules). *)
-From Acra Require Export Lib.Bytes Lib.Outcome Gen.KswConsts Model.KeystoreWrite.
+From Acra Require Export Lib.Bytes Lib.Outcome Gen.KswConsts Model.KeystoreWrite Model.KeystoreSerial.
 Local Open Scope Z_scope.
 
 Inductive expected := XOk (vals : list bytes) | XErr | XPanic.
@@ -14,7 +14,8 @@ Inductive kop :=
 
 Inductive op :=
 | Scenario (hist : list (kop * fault)) (faulted : kop) (f : fault) (follow : kop)
-| Sched (hist : list (kop * fault)) (progs : list (list hop)) (sched : list (nat * N)).
+| Sched (hist : list (kop * fault)) (progs : list (list hop)) (sched : list (nat * N))
+| SchedX (hist : list (kop * fault)) (progs : list (list xop)) (sched : list (nat * N)).
 
 (** ** encoding of observations: sequences of 64-bit little-endian numbers *)
 Definition encN (n : N) : bytes := le_enc 8 n.
@@ -169,10 +170,43 @@ Definition run_sched (hist : list (kop * fault)) (progs : list (list hop)) (sche
   let '(g, bad) := grun_tr (mk_g st0 LFree hs) sched 0 in
   XOk (enc_nat bad :: enc_storage (g_st g) :: map obs_handle (g_hs g)).
 
+(** C17 schedule over the EXTENDED alphabet (Model/KeystoreSerial.v): writers and readers
+    (OpenKeyRing, ListKeys) are all handles of the generic machine; same call-tag discipline *)
+Definition enc_rids (l : list (N * Z)) : bytes :=
+  enc_nat (length l) ++ flat_map (fun p => encN (fst p)) (sort_pairs l).
+Definition enc_xres (r : xres) : bytes :=
+  match r with
+  | XZ z => enc_res z
+  | XKeys (Ok l) => encN 0 ++ enc_rids l
+  | XKeys (Err _) => encN 1
+  | XKeys Panic => encN 3
+  end.
+
+Fixpoint xrun_tr (g : xstate') (sched : list (nat * N)) (bad : nat) : xstate' * nat :=
+  match sched with
+  | [] => (g, bad)
+  | (i, tag) :: rest =>
+      let agree := match xnext_call xop_prog g i with Some c => N.eqb (call_tag c) tag | None => false end in
+      match xstep xop_prog g i with
+      | Some g' => xrun_tr g' rest (if agree then bad else S bad)
+      | None => xrun_tr g rest (S bad)
+      end
+  end.
+
+Definition obs_xhandle (h : xhandle') : bytes :=
+  let h' := xsettled xop_prog h in
+  enc_nat (length (xh_todo h')) ++ flat_map enc_xres (rev (xh_out h')) ++ enc_view (xh_loc h').
+
+Definition run_schedx (hist : list (kop * fault)) (progs : list (list xop)) (sched : list (nat * N)) : expected :=
+  let '(st0, _) := run_hist [] no_slots hist in
+  let '(g, bad) := xrun_tr (mk_x st0 LFree (map xfresh progs)) sched 0 in
+  XOk (enc_nat bad :: enc_storage (x_st g) :: map obs_xhandle (x_hs g)).
+
 Definition run (o : op) : expected :=
   match o with
   | Scenario hist x f follow => run_scenario hist x f follow
   | Sched hist progs sched => run_sched hist progs sched
+  | SchedX hist progs sched => run_schedx hist progs sched
   end.
 
 Fixpoint list_bytes_eqb (a b : list bytes) : bool :=
